@@ -5,6 +5,7 @@ import json
 import sys
 
 root, verif, cases_file, start = sys.argv[1], sys.argv[2], sys.argv[3], int(sys.argv[4])
+skip_ops = set(json.loads(sys.argv[5])) if len(sys.argv) > 5 else set()   # ops already shown to fault
 sys.path.insert(0, root)
 sys.path.insert(1, verif)
 import aioquic  # noqa: E402
@@ -13,6 +14,8 @@ from harness.impl_chelpers import CHelpersImpl  # noqa: E402
 
 cases = json.load(open(cases_file))
 for i in range(start, len(cases)):
+    if skip_ops and any(line.split()[0] in skip_ops for line in cases[i][1:]):
+        continue
     print(f"@ {i}", flush=True)
     sys.stderr.write(f"@ {i}\n")
     sys.stderr.flush()
